@@ -2,7 +2,7 @@ SPECIFICATION Spec
 CONSTANTS CancelOnExit = TRUE
  FiredTimerCleared = TRUE
  MaxNow = 3
- MaxLevel = 9
+ MaxLevel = 8
  MinStop = 0
  Tables = "some"
 INVARIANT AtMostOnePending
